@@ -159,7 +159,7 @@ def repo_state():
         return "?", "?"
 
 
-def reproduce(prop, tier, recorded, ident):
+def reproduce(prop, tier, recorded, ident, verbose=False):
     """Re-execute from a draw recording; returns (violation json | None,
     digest, sample)."""
     eng = engine_for(prop)
@@ -167,6 +167,8 @@ def reproduce(prop, tier, recorded, ident):
     try:
         res = eng.run_case(d, prop, tier)
     except Exception:  # noqa: B902 - a candidate that breaks the harness
+        if verbose:
+            traceback.print_exc()
         return None, None, None
     for v in res.violations:
         if prop in v.props and (v.oracle, list(v.key)) == ident:
@@ -213,7 +215,7 @@ def replay_cli(prop, path):
         rp = json.load(f)
     ident = (rp["oracle"], list(rp["key"]))
     v, digest, _ = reproduce(prop, rp.get("tier", "quick"), rp["draws"],
-                             ident)
+                             ident, verbose=True)
     if v is None:
         print("replay: violation %s %s not reproduced on this tree"
               % (rp["oracle"], rp["key"]))
@@ -361,10 +363,20 @@ def main_check(prop, tier, runs=None, budget_s=None):
             [PY, "-B", os.path.join(VERIF, "check.py"), prop, "--replay",
              replay_path], capture_output=True, text=True, timeout=300)
         if p.returncode != 1:
-            print("HARNESS-ERROR minimised replay did not reproduce in a "
-                  "fresh process (exit %d): %s" % (
-                      p.returncode, (p.stdout + p.stderr)[-1500:]))
-            return 3
+            # fall back to the unminimised recording before giving up
+            note = (p.stdout + p.stderr)[-1500:]
+            os.remove(replay_path)
+            replay_path = write_replay(prop, tier, base_seed, i, v, rec, 0)
+            p = subprocess.run(
+                [PY, "-B", os.path.join(VERIF, "check.py"), prop, "--replay",
+                 replay_path], capture_output=True, text=True, timeout=300)
+            if p.returncode != 1:
+                print("HARNESS-ERROR replay did not reproduce in a fresh "
+                      "process (exit %d): %s\n-- minimised attempt: %s" % (
+                          p.returncode, (p.stdout + p.stderr)[-1500:], note))
+                return 3
+            print("note: the minimised recording did not reproduce in a "
+                  "fresh process; reporting the unminimised one")
         print("violation: %s %s: %s" % (v["oracle"], v["key"], v["detail"]))
         print("VIOLATION property=%s replay=%s" % (prop, replay_path))
         exit_code = 1
